@@ -82,6 +82,40 @@ def distinct_probs(units):
     return len(set(ps)) == len(ps)
 
 
+def trained_list(rng):
+    syl = ['ka', 'mi', 'to', 'ra', 'ne', 'lu', 'so', 'be', 'di', 'va', 'x', 'q', '7', '12', '99', '2000']
+    return [''.join(rng.choice(syl) for _ in range(rng.randint(3, 6))) for _ in range(300)]
+
+
+def trained_status_case(rng, dist, pws=None):
+    import io
+    import contextlib
+    pws = pws or trained_list(rng)
+    tf = os.path.join(common.scratch_dir('c12t'), 'list.txt')
+    with open(tf, 'w', encoding='utf-8') as f:
+        f.write(''.join(p + '\n' for p in pws))
+    rd = os.path.join(common.scratch_dir('rules'), 'c12trained')
+    ok, log = common.train(tf, rd, ngram=3, coverage=0.6)
+    wit = {'trained_passwords': pws}
+    if not ok:
+        return [{'property': 'C12', 'kind': 'training-failed', 'log_tail': log[-200:], 'witness': wit}]
+    pcfg = common.load_grammar(rd)
+    out = []
+    levels = []
+    for idx, grp in enumerate(pcfg.grammar.get('M', [])):
+        levels.append(grp['values'][0])
+        try:
+            with contextlib.redirect_stderr(io.StringIO()), contextlib.redirect_stdout(io.StringIO()):
+                st = pcfg.get_status([('M', idx)])
+            if 'keyspace' not in st:
+                raise KeyError('keyspace')
+        except Exception as e:
+            out.append({'property': 'C12', 'kind': 'status-request-fails-inside-markov-level', 'level': grp['values'][0], 'error': repr(e)[:100], 'witness': wit})
+            break
+    dist['trained_markov_levels_status_checked'] = len(levels)
+    return out
+
+
 def run(ctx):
     rng = ctx.rng
     common.use_impl()
@@ -206,6 +240,11 @@ def run(ctx):
                 nontrivial += 1
             if len(samples) < 3 and r['state'] == 'exited':
                 samples.append({'grammar': spec['grammar'], 'events': events, 'schedule': sched[:60], 'out': r['out'][:8], 'state': r['state']})
+    # a ruleset written by the trainer itself (a few hundred passwords over letters and digits: the keyspace passes the trainer's
+    # cut-off at some level, which is then the highest level listed): wherever the guesser is, a status request is answered - the
+    # keyboard thread that dies on one never reads the `q` typed after it
+    viol += trained_status_case(rng, dist)
+    cases += 1
     # real stdin kinds (subprocess): the stream never depends on them
     cli_runs = 0
     for i in range(ctx.scale(1, 4)):
@@ -255,6 +294,10 @@ def run(ctx):
 
 
 def replay(ctx, payload):
+    w_ = payload.get('violation', {}).get('witness') or {}
+    if 'trained_passwords' in w_:
+        common.use_impl()
+        return [{'kind': v['kind']} for v in trained_status_case(None, {}, pws=w_['trained_passwords'])]
     w = payload.get('violation', {}).get('witness') or {}
     if 'spec' not in w:
         return []
